@@ -63,6 +63,18 @@ def check_tile(t, pl, cs, R, nsub, probs):
     from toasty.pyramid import Pos
 
     p = tuple(int(v) for v in t.pos)
+    if R.random() < 0.5:
+        # the grid was asked for before, and that answer was put through the library's own samplers (whole-map and chunk
+        # samplers): the answer to the next request is judged
+        from toasty import samplers as _smp
+
+        from checks.c07 import FakeChunked
+
+        lon0, lat0 = toast.toast_tile_get_coords(t)
+        m = np.arange(8 * 16, dtype=np.float32).reshape(8, 16)
+        for f in (_smp.plate_carree_sampler(m), _smp.plate_carree_planet_sampler(m), _smp.plate_carree_zeroright_sampler(m),
+                  _smp.ChunkedPlateCarreeSampler(FakeChunked(m, 16, 8), planetary=True).sampler(0)):
+            f(lon0, lat0)
     lon, lat = toast.toast_tile_get_coords(t)
     if lon.shape != (256, 256) or lat.shape != (256, 256):
         probs.append("%s: grid shape %s" % (p, lon.shape))
@@ -139,6 +151,20 @@ def case_sampler_grid(spec, workdir):
         from toasty.samplers import _latlon_tile_filter
 
         accept_all = _latlon_tile_filter(-0.2, 6.5, -1.5707963267948966, 1.5707963267948966)
+    if spec["seed"] % 3 != 0:
+        # an EARLIER sampling pass over the same layer in this process, with the library's own samplers (whole-map and per
+        # chunk, as a chunked planetary mosaic is toasted): whatever those passes did with the grids they were handed, the
+        # next pass must again receive each tile's own pixel centres
+        from toasty import samplers as _smp
+
+        from checks.c07 import FakeChunked
+
+        m = np.arange(16 * 32, dtype=np.float32).reshape(16, 32)
+        early = PyramidIO(os.path.join(workdir, "earlier"), default_format="npy")
+        toast.sample_layer(early, _smp.plate_carree_planet_sampler(m) if pl else _smp.plate_carree_sampler(m), depth, coordsys=cs, parallel=1)
+        ch = _smp.ChunkedPlateCarreeSampler(FakeChunked(m, 12, 16), planetary=True)
+        for ic in range(3):
+            toast.sample_layer_filtered(early, ch.filter(ic), ch.sampler(ic), depth, coordsys=cs, parallel=1)
     if spec["entry"] == "sample_layer":
         toast.sample_layer(pio, recorder, depth, coordsys=cs, parallel=1)
     elif spec["entry"] == "sample_layer_filtered":
